@@ -46,6 +46,13 @@ func (*requestCodec) HandleRead(ctx netty.InboundContext, message netty.Message)
 				ctx.Close(fmt.Errorf("request mark closed"))
 				return
 			}
+			// discard what the handler left unread of the body, otherwise
+			// it would be parsed as the next request.
+			if nil != request.Body {
+				_, err = io.Copy(io.Discard, request.Body)
+				utils.Assert(err)
+				_ = request.Body.Close()
+			}
 		}
 	default:
 		ctx.HandleRead(message)
